@@ -166,6 +166,9 @@ func NewControl(
 	if poolCount > int(serverCfg.Transport.MaxPoolCount) {
 		poolCount = int(serverCfg.Transport.MaxPoolCount)
 	}
+	if poolCount < 0 {
+		poolCount = 0
+	}
 	ctl := &Control{
 		rc:            rc,
 		pxyManager:    pxyManager,
